@@ -1078,4 +1078,9 @@ theorem ts_vrank_minPeriods (len w : Nat) (mp : Option Nat) (h : 1 ≤ len) :
   have : ¬ len = 0 := by omega
   simp [Gen.ts_vrank.minPeriods, C03.cmpMp, this]
 
+/-- `ts_vminmaxnorm` (norm.rs): an explicit `min_periods` is clamped to the window -/
+theorem ts_vminmaxnorm_minPeriods (len w : Nat) (mp : Option Nat) :
+    Gen.ts_vminmaxnorm.minPeriods len w mp = C03.normMp mp w := by
+  simp [Gen.ts_vminmaxnorm.minPeriods, C03.normMp]
+
 end Tv.C05Gen
